@@ -36,6 +36,12 @@ def _run_child(episode_fn, task, timeout_s):
         status = 0
         try:
             os.close(r)
+            try:  # the package prints diagnostics (NOTIMPL: ...) to stdout; episodes report through the pipe only
+                dn = os.open(os.devnull, os.O_WRONLY)
+                sys.stdout.flush()
+                os.dup2(dn, 1)
+            except Exception:
+                pass
             try:
                 faulthandler.dump_traceback_later(max(1.0, timeout_s - 1.0), exit=False, file=sys.stderr)
             except Exception:
@@ -106,7 +112,7 @@ def _worker(episode_fn, timeout_s, tq, rq):
         rq.put((idx, res))
 
 
-def run_batch(episode_fn, tasks, workers=None, timeout_s=60.0, budget_s=None, min_tasks=1, on_result=None):
+def run_batch(episode_fn, tasks, workers=None, timeout_s=60.0, budget_s=None, min_tasks=1, on_result=None, max_errors=8):
     """Run episode_fn over tasks (an iterable; may be infinite when budget_s is given).
 
     Returns a list of (task, result) in task order.
@@ -125,8 +131,12 @@ def run_batch(episode_fn, tasks, workers=None, timeout_s=60.0, budget_s=None, mi
     exhausted = False
     n_issued = 0
 
+    n_err = 0
+
     def feed():
         nonlocal exhausted, n_issued
+        if n_err >= max_errors:  # e.g. every episode hangs: stop early, the batch is harness trouble anyway
+            exhausted = True
         while not exhausted and len(issued) - len(results) < 2 * workers:
             if budget_s is not None and n_issued >= min_tasks and time.monotonic() - t0 > budget_s:
                 exhausted = True
@@ -154,6 +164,8 @@ def run_batch(episode_fn, tasks, workers=None, timeout_s=60.0, budget_s=None, mi
                 continue
             last_progress = time.monotonic()
             results[idx] = res
+            if "harness_error" in res:
+                n_err += 1
             if on_result is not None:
                 on_result(issued[idx], res)
             feed()
